@@ -7,7 +7,7 @@ the generated code differs (`for_stmt`, `while_stmt`, a bound method, a callable
 also wraps `functools.partial(body_for)`):
 
     obs(in); try: for each child i: [raise?]; obs(pre i); drive(child()); obs(post i)   ; [raise?]
-             except Boom: obs(caught) if this node catches, else re-raise
+             except CATCHABLE: obs(caught) if this node catches, else re-raise
              except AssertionError: the same, but only for a function scope's refusal of unsupported conversion
                                     options ("... are not supported"); any other AssertionError is re-raised
     obs(out)
@@ -22,8 +22,45 @@ code via `ErrorMetadataBase.create_exception`, which keeps the type only for suc
 """
 
 
+import dataclasses
+
+
 class Boom(Exception):
     pass
+
+
+# Exceptions that reject attribute assignment (and therefore ask malt, via `ag_pass_through`, not to attach error
+# metadata to them), and BaseException subclasses (which malt's `except Exception` clauses never see).  Bodies catch
+# all of them like Boom.
+@dataclasses.dataclass(frozen=True)
+class FrozenBoom(Boom):
+    msg: str = ''
+    ag_pass_through = True
+
+    def __str__(self):
+        return self.msg
+
+
+class SetattrBoom(Boom):
+    ag_pass_through = True
+
+    def __setattr__(self, name, value):
+        raise AttributeError('read-only exception')
+
+
+class BaseBoom(BaseException):
+    pass
+
+
+class BaseSetattrBoom(BaseException):
+    ag_pass_through = True
+
+    def __setattr__(self, name, value):
+        raise AttributeError('read-only exception')
+
+
+CATCHABLE = (Boom, BaseBoom, BaseSetattrBoom)
+EXC = {'boom': Boom, 'frozen': FrozenBoom, 'setattr': SetattrBoom, 'base': BaseBoom, 'basesetattr': BaseSetattrBoom}
 
 
 def body_for(env, nid):
@@ -35,7 +72,7 @@ def body_for(env, nid):
             env.drive(c, f(env, c))
             env.obs(nid, 'post', i)
         env.last(nid)
-    except Boom:
+    except CATCHABLE:
         env.handle(nid)
     except AssertionError:
         env.handle_refusal(nid)
@@ -54,7 +91,7 @@ def body_while(env, nid):
             env.obs(nid, 'post', i)
             i += 1
         env.last(nid)
-    except Boom:
+    except CATCHABLE:
         env.handle(nid)
     except AssertionError:
         env.handle_refusal(nid)
@@ -72,7 +109,7 @@ class Holder(object):
                 env.drive(c, f(env, c))
                 env.obs(nid, 'post', i)
             env.last(nid)
-        except Boom:
+        except CATCHABLE:
             env.handle(nid)
         except AssertionError:
             env.handle_refusal(nid)
@@ -89,7 +126,7 @@ class Holder(object):
                 env.obs(nid, 'post', i)
                 yield i
             env.last(nid)
-        except Boom:
+        except CATCHABLE:
             env.handle(nid)
         except AssertionError:
             env.handle_refusal(nid)
@@ -112,7 +149,7 @@ def gbody_for(env, nid):
             env.obs(nid, 'post', i)
             yield i
         env.last(nid)
-    except Boom:
+    except CATCHABLE:
         env.handle(nid)
     except AssertionError:
         env.handle_refusal(nid)
@@ -133,7 +170,7 @@ class CallableBody(object):
                 env.obs(nid, 'post', i)
                 i += 1
             env.last(nid)
-        except Boom:
+        except CATCHABLE:
             env.handle(nid)
         except AssertionError:
             env.handle_refusal(nid)
@@ -166,7 +203,7 @@ def body_localdef(env, nid):
         for i, f, c in env.kids(nid):
             visit(i, f, c)
         env.last(nid)
-    except Boom:
+    except CATCHABLE:
         env.handle(nid)
     except AssertionError:
         env.handle_refusal(nid)
@@ -184,7 +221,7 @@ def body_locallambda(env, nid):
             env.drive(c, f(env, c))
             after(i)
         env.last(nid)
-    except Boom:
+    except CATCHABLE:
         env.handle(nid)
     except AssertionError:
         env.handle_refusal(nid)
@@ -207,7 +244,7 @@ def body_twolevel(env, nid):
         for i, f, c in env.kids(nid):
             visit(i, f, c)
         env.last(nid)
-    except Boom:
+    except CATCHABLE:
         env.handle(nid)
     except AssertionError:
         env.handle_refusal(nid)
@@ -227,7 +264,7 @@ def body_localclass(env, nid):
         for i, f, c in env.kids(nid):
             v.visit(i, f, c)
         env.last(nid)
-    except Boom:
+    except CATCHABLE:
         env.handle(nid)
     except AssertionError:
         env.handle_refusal(nid)
